@@ -109,6 +109,7 @@ class Interp:
         self.trace_calls = []
         self.max_unroll = 64
         self.allocs = []
+        self.frames = []  # environments of the active calls (contracts may inspect locals at a stop point)
         self.scratch = {}  # per-path storage for contracts (loop specs capture locals here)
 
     # ================================================================== names
@@ -231,6 +232,7 @@ class Interp:
         if isinstance(fv.node, ast.Lambda):
             return self.eval(fv.node.body, env)
         self.call_depth += 1
+        self.frames.append(env)
         self.cx.fn_stack.append(fv.qualname)
         saved = self.loop_counters.get(fv.qualname)
         self.loop_counters[fv.qualname] = 0
@@ -241,6 +243,7 @@ class Interp:
             return r.value
         finally:
             self.call_depth -= 1
+            self.frames.pop()
             self.cx.fn_stack.pop()
             if saved is not None:
                 self.loop_counters[fv.qualname] = saved
